@@ -4,7 +4,7 @@ from concurrent.futures import ThreadPoolExecutor
 import common, iv_common
 from common import hexs, unhex
 
-TRANSLATORS = []
+TRANSLATORS = ['t_util']
 TRUSTED = ['modelled, not verified: readdir(3)/d_type as delivered by the kernel (names pairwise distinct, no "/" or NUL), '
            'qsort(3) (hypothesis "returns a permutation whose adjacent elements compare <= 0"; proved irrelevant beyond that), '
            'strcmp/snprintf/printf of libc, paths shorter than PATH_MAX (no snprintf truncation), names and root without newline '
